@@ -460,14 +460,20 @@ class Workflow(Composite):
             self._inputs = self._build_inputs()
             self._outputs = self._build_outputs()
             for old, new in [(old_inputs, self.inputs), (old_outputs, self.outputs)]:
-                for old_channel in old:
+                for key, old_channel in old.items():
                     if old_channel.connected:
                         # If the old channel was connected to stuff, we'd better still
                         # have a corresponding channel and be able to copy these, or we
                         # should fail hard.
                         # But, if it wasn't connected, we don't even care whether or not
                         # we still have a corresponding channel to copy to
-                        new_channel = new[old_channel.label]
+                        # Panels are keyed by the (possibly mapped) IO key, not by the
+                        # child channel's own label
+                        new_channel = new[key]
+                        if new_channel is old_channel:
+                            # Workflow IO is by reference to the children's channels;
+                            # there is nothing to move (and purging would destroy it)
+                            continue
                         new_channel.copy_connections(old_channel)
                         swapped_conenctions = old_channel.disconnect_all()  # Purge old
                         connection_changes.append(
@@ -481,7 +487,7 @@ class Workflow(Composite):
             self._outputs = old_outputs
             e.message = (
                 f"Unable to rebuild IO for {self.full_label}; reverting to old IO."
-                f"{e.message}"
+                f"{getattr(e, 'message', '')}"
             )
             raise e
 
@@ -511,8 +517,10 @@ class Workflow(Composite):
         except Exception as e:
             # If IO can't be successfully rebuilt using this node, revert changes and
             # raise the exception
-            self.replace_child(replacement_node, replaced)  # Guaranteed to work since
-            # replacement in the other direction was already a success
+            # Revert at the composite level only: going through this method again
+            # would re-run the failing IO rebuild and recurse without end
+            super().replace_child(replacement_node, replaced)  # Guaranteed to work
+            # since replacement in the other direction was already a success
             raise e
 
         return replaced, replacement_node
